@@ -1274,7 +1274,8 @@ impl<'w> Gen<'w> {
             g.nfts.remove(0);
             variants.push(("missing-nft", g));
         }
-        let exp = l.expiration_time.unwrap().nanos();
+        // (a finalized listing has an expiration; one without is ill-formed and reported by o12 — go on regardless)
+        let exp = l.expiration_time.map_or(self.h.sim.now().nanos() + 1_000_000_000, |e| e.nanos());
         for (name, g) in variants {
             self.push();
             self.note(&format!("buy-perturb {} listing {}", name, l.id));
